@@ -266,6 +266,9 @@ func (c *FnCtx) evalObj(env *Env, obj types.Object, n ast.Node) Val {
 		return Val{T: "nil", Typ: types.Typ[types.UntypedNil]}
 	case *types.Var:
 		if v, ok := env.st.vars[o]; ok {
+			if c.boxed[o] {
+				return c.loadFrom(env, v.T, o.Type())
+			}
 			return v
 		}
 		if o.Pkg() != nil && o.Parent() == o.Pkg().Scope() {
@@ -1159,6 +1162,14 @@ func (c *FnCtx) evalSlice(env *Env, x *ast.SliceExpr) Val {
 func (c *FnCtx) addrOf(env *Env, x ast.Expr, n ast.Node) Val {
 	x = unparen(x)
 	switch y := x.(type) {
+	case *ast.Ident:
+		if !env.spec {
+			if o, ok := c.info().ObjectOf(y).(*types.Var); ok && c.boxed[o] {
+				if cell, ok := env.st.vars[o]; ok {
+					return Val{T: cell.T, Typ: types.NewPointer(o.Type())}
+				}
+			}
+		}
 	case *ast.CompositeLit:
 		return c.evalCompositeLit(env, y, true)
 	case *ast.IndexExpr:
